@@ -159,6 +159,17 @@ CHECKS["C11"] = dict(
    note=TB + "Bounds: n<=5 exhaustive cuts in the quick tier; n<=7 and n<=10 (512 cuts per dataset) in the thorough tier; 2-3 keys.",
    technique="TLA+ fold model whose behaviours are the chunkings, checked by TLC; every behaviour replayed into the streaming API",
    design="6/C11")
+CHECKS["C16"] = dict(
+   text="spec/Bam.tla is a specification-level encoder AND decoder of the BAM alignment record (SAMv1 4.2: block size, refID, pos, name, "
+        "mapq, n_cigar, flag, l_seq, NUL-terminated name, cigar words len<<4|op, 4-bit packed bases, qualities, tag bytes) with the "
+        "reference interval (pos + lengths of M/D/N/=/X, strand from 0x10); TLC checks Decode(Encode(r)) = r and the block-size "
+        "arithmetic on every state. MC_C16 grows a file record by record from eight templates (unmapped, all nine CIGAR kinds, "
+        "odd/even/empty sequences, tags ending in 0x0A, names of 220 and 254 characters, position > 65535) and prints records with their "
+        "bytes; each file is wrapped in a BAM header + gzip and checked: whole read, read_chunks for chunk sizes >= the largest record, "
+        "BamIntervalBuffer / alignment_to_interval, and write-back whole / filtered / reordered (decoded again, and byte for byte).",
+   note=TB + "Bounds: files of <=2 (quick) / <=3 (thorough) records from the template family; the independent encoder is the TLA+ module itself.",
+   technique="TLA+ encoder/decoder pair checked by TLC; TLC-emitted bytes decoded by the implementation and compared field by field",
+   design="6/C16")
 PENDING = {}
 def main():
     props = [json.loads(l)["id"] for l in open(os.path.join(HERE, "properties.jsonl"))]
